@@ -13,16 +13,19 @@ for i in range(1,21):
         rows.append("| %s | ? | ? | ? | ? |"%p)
 a=open('/verif/notes/asbuilt.md').read().replace('@@TABLE@@',"\n".join(rows))
 seed=subprocess.run(['/verif/tools/seedmap.py'],capture_output=True,text=True).stdout
+nseed=len([d for d in os.listdir('/verif/seeded') if os.path.isdir('/verif/seeded/'+d)])
 k="""## Appendix K — seeded changes and which checks report them
 
-Forty property-breaking changes written by sub-agents in four rounds (each agent saw one property's text and a scratch
+%d property-breaking changes written by sub-agents in five rounds (each agent saw one property's text and a scratch
 worktree without the contract files; from round 3 on it was also told which mechanisms were already taken).  Every change
 compiles, passes the unedited test suite and was confirmed by running its demonstration on the original and the changed
-tree.  "Reported by" lists, per check that was run against the change, the failed obligations (function/kind:label).
-The patches, demonstrations and `meta.json` (what it needs to manifest, what was run, history of misses) are under
+tree.  "Reported by" lists, per check that was run against the change, the failed obligations (function/kind:label);
+the first check named is the one of the property the change was written for.  The patches, demonstrations and
+`meta.json` (what it needs to manifest, what was run, and — where the first run missed it — what was changed) are under
 `/verif/seeded/<name>/`; `./selftest.sh seeded` replays them against a scratch copy.
 
-"""+seed+"\n"
+""" % nseed
+k=k+""""""+seed+"\n"
 def put(s,begin,end,body):
     b,e='<!-- %s -->'%begin,'<!-- %s -->'%end
     if b in s:
